@@ -1,7 +1,6 @@
 package stackless
 
 import (
-	"errors"
 	"fmt"
 	"io"
 	"sync"
@@ -91,7 +90,11 @@ func (w *writer) Reset(dstW io.Writer) {
 func (w *writer) do(op op) error {
 	w.op = op
 	if !stacklessWriterFunc(w) {
-		return errHighLoad
+		// The stackless queue is full. Dropping the operation would lose
+		// data silently when the caller ignores the error (Close and Reset
+		// are called that way when writers are returned to their pools),
+		// so run it on the caller's stack instead.
+		writerFunc(w)
 	}
 	err := w.err
 	if err != nil {
@@ -104,8 +107,6 @@ func (w *writer) do(op op) error {
 
 	return err
 }
-
-var errHighLoad = errors.New("cannot compress data due to high load")
 
 var (
 	stacklessWriterFuncOnce sync.Once
